@@ -1912,11 +1912,15 @@ func (h *fsmHandler) recvMessageloop(ctx context.Context, conn net.Conn, holdtim
 					useRevisedError := h.fsm.isTreatAsWithdraw
 
 					var validationErr error
-					if handling == bgp.ERROR_HANDLING_NONE {
-						ok, ve := bgp.ValidateUpdateMsg(body, rfMap, h.fsm.isEBGP, h.fsm.isConfed, h.allowLoopback)
-						if !ok {
+					// an attribute-discard or treat-as-withdraw error found while
+					// decoding does not excuse the message from validation: a
+					// second, stronger fault (a missing mandatory attribute, a
+					// duplicate MP_REACH_NLRI) must still get its reaction
+					ok, ve := bgp.ValidateUpdateMsg(body, rfMap, h.fsm.isEBGP, h.fsm.isConfed, h.allowLoopback)
+					if !ok {
+						if vh := h.handlingError(m, ve, useRevisedError); vh > handling {
 							validationErr = ve
-							handling = h.handlingError(m, ve, useRevisedError)
+							handling = vh
 							fmsg.handling = handling
 						}
 					}
